@@ -41,7 +41,8 @@ from ..core import (AnalysisError, call_name, const_str, find_calls, is_name,
                     walk)
 from ..normalize import expand_locals
 from ..lib_C14 import (COPIER, CORE, EXPORT, FB, WRITER, Mini, Model, USet,
-                       basin_loop, dewalrus, inline_module_helpers,
+                       basin_loop, dewalrus, expand_partials,
+                       inline_module_helpers,
                        Unknown, Unordered, base_names, cfg_ids,
                        classes_in, edge_guarded, enclosing_conditions,
                        fact_guard, fold, method, single_assign, stmt_of)
@@ -1252,9 +1253,9 @@ def r74(ctx, repo):
 
 # ----------------------------------------------------------------------
 def r75(ctx, repo):
-    br = inline_module_helpers(
+    br = expand_partials(inline_module_helpers(
         repo, CORE, repo.func(CORE, "RTDCBase.basins_retrieve"),
-        methods=True)
+        methods=True))
     ppath = {n.targets[0].id for n in walk(br) if isinstance(n, ast.Assign)
              and isinstance(n.targets[0], ast.Name) and isinstance(
                  n.value, ast.Call) and call_name(n.value) in (
@@ -2050,6 +2051,20 @@ def _twin_bloc_bpath(src):
     return src[:a] + blk + src[b:]
 
 
+def _twin_partial(src):
+    """the four instantiations through one functools.partial"""
+    if src.count("b_cls(") < 4 or "import functools" in src:
+        return src
+    src = src.replace("import abc\n", "import abc\nimport functools\n", 1)
+    src = src.replace(
+        "            # Check whether this basin is supported and exists\n",
+        "            new_basin = functools.partial(b_cls, **kwargs)\n\n"
+        "            # Check whether this basin is supported and exists\n", 1)
+    for loc in ('bdict["paths"][0]', "pp", "this_path.parent / pp", "url"):
+        src = src.replace(f"b_cls({loc}, **kwargs)", f"new_basin({loc})")
+    return src
+
+
 def _twin_origin_helper(src):
     """the two literal definitions built by one module-level helper"""
     a = src.index('                    basin_is_local = ds.format == "hdf5"\n')
@@ -2110,6 +2125,7 @@ TWINS = [
      _twin_source_locs_helper),
     ("file locations loop without rebinding the loop variable", WRITER,
      _twin_bloc_bpath),
+    ("basins instantiated through functools.partial", CORE, _twin_partial),
     ("definitions of the exported dataset built by a helper", EXPORT,
      _twin_origin_helper),
     ("map name search with early continue", WRITER,
